@@ -282,7 +282,7 @@ impl AuthenticationBuiltin {
   }
 }
 
-#[cfg(rustdds_verif)]
+#[cfg(all(rustdds_verif, any(not(rustdds_verif_only), rustdds_verif_c16, rustdds_verif_c19)))]
 impl AuthenticationBuiltin {
   /// Verification hook: class of the handshake state kept for a remote identity handle
   /// (0 PendingRequestSend, 1 PendingRequestMessage, 2 PendingReplyMessage,
